@@ -21,7 +21,11 @@ import (
 	"path/filepath"
 	"runtime"
 	"sort"
+	"strconv"
+	"strings"
 	"time"
+
+	"github.com/charlievieth/strcase"
 )
 
 type Finding struct {
@@ -232,6 +236,33 @@ func main() {
 }
 
 func doReplay(line string) {
+	if strings.HasPrefix(line, "k.") {
+		// a kernel case: both entry points of the kernel under the CPU features this process sees
+		f := strings.Split(line, "\t")
+		s, err := unhex(f[1])
+		if err != nil {
+			fmt.Fprintln(os.Stderr, err)
+			os.Exit(2)
+		}
+		c := 0
+		if len(f) > 2 {
+			c, _ = strconv.Atoi(f[2])
+		}
+		var a, b int
+		switch f[0] {
+		case "k.index_non_ascii":
+			a, b = strcase.VerifBytealgIndexNonASCII(string(s)), strcase.VerifBytealgIndexByteNonASCII(s)
+		case "k.index_byte":
+			a, b = strcase.VerifBytealgIndexByteString(string(s), byte(c)), strcase.VerifBytealgIndexByte(s, byte(c))
+		case "k.count":
+			a, b = strcase.VerifBytealgCountString(string(s), byte(c)), strcase.VerifBytealgCount(s, byte(c))
+		default:
+			fmt.Fprintln(os.Stderr, "unknown kernel case", f[0])
+			os.Exit(2)
+		}
+		fmt.Printf("strcase=%d\tbytcase=%d\tref=\n", a, b)
+		return
+	}
 	c, err := parseCase(line)
 	if err != nil {
 		fmt.Fprintln(os.Stderr, err)
